@@ -167,6 +167,29 @@ Theorem c10_stencil_centred :
 Proof. exact fx_stencil_centred. Qed.
 Print Assumptions c10_stencil_centred.
 
+(** constants reproduce (uniform-cubic path): whenever the evaluation succeeds a theta-spline whose coefficients
+    are all c has the value c - the hypothesis [V m k j = c] of c10_preserves_constants for constant data *)
+Theorem c10_ev_const_cu :
+  forall (F : Type) (K : sp_ops F),
+  sp_laws K ->
+  forall (knots : list F) (deg : nat) (coeffs : list F) (c x v : F),
+  (forall i : nat, (i < length coeffs)%nat -> nth i coeffs (sp0 K) = c) ->
+  adv_ev F K true knots deg coeffs x = SpOk v -> v = c.
+Proof. exact adv_ev_const_cu. Qed.
+Print Assumptions c10_ev_const_cu.
+
+(** the same on the general path (sorted knots, the span found is a non-empty interval) *)
+Theorem c10_ev_const_nu :
+  forall (F : Type) (K : sp_ops F),
+  sp_laws K ->
+  forall (knots : list F) (deg : nat) (coeffs : list F) (c x v : F),
+  sp_sorted F K knots ->
+  (forall s : nat, sp_nu_find_span F K knots deg x = SpOk s -> sp_span_ok F K knots s) ->
+  (forall i : nat, (i < length coeffs)%nat -> nth i coeffs (sp0 K) = c) ->
+  adv_ev F K false knots deg coeffs x = SpOk v -> v = c.
+Proof. exact adv_ev_const_nu. Qed.
+Print Assumptions c10_ev_const_nu.
+
 (** the executed instance satisfies the hypotheses [sp_laws] and [adv_trunc_ok] *)
 Theorem c10_qc_instance : sp_laws spq_ops /\ adv_trunc_ok Qc spq_ops.
 Proof. exact (conj spq_laws advq_trunc_ok). Qed.
